@@ -41,6 +41,7 @@ type Gen struct {
 	subDelay     *big.Int
 	usedHashes   [][]byte
 	stats        map[string]int
+	deep         bool // this history uses the goal-directed stream (decided from the PRNG in mkActors)
 }
 
 var (
@@ -77,6 +78,7 @@ func (g *Gen) mkActors() {
 	// prefix relation: extension of actor 0 by one byte, truncation of actor 1
 	g.actors = append(g.actors, Actor{Bytes: append(append([]byte{}, g.actors[0].Bytes...), 0x00)})
 	g.actors = append(g.actors, Actor{Bytes: append([]byte{}, g.actors[1].Bytes[:19]...)})
+	g.deep = g.chance(0.5)
 }
 
 func (g *Gen) actor() Actor { return g.actors[g.pick(len(g.actors))] }
@@ -417,6 +419,13 @@ func (g *Gen) genTx() []string {
 	sessions := vk.Session.GetSessions(ctx)
 	h := 0.12 // hostile probability per address argument
 	a := g.actor()
+	// goal-directed stream: drive the marketplace towards deep states (plan sessions on shared quota with usage)
+	if g.deep && g.chance(0.35) {
+		if toks := g.goalTx(); toks != nil {
+			g.stats["gen.goal."+toks[0]]++
+			return toks
+		}
+	}
 	ws := []struct {
 		k string
 		w int
@@ -650,7 +659,26 @@ func (g *Gen) genTx() []string {
 		if g.chance(0.05) {
 			to = from
 		}
-		return []string{kind, g.maybeHostile(g.ta('a', from), h).Tok(), fmt.Sprint(id), g.maybeHostile(g.ta('a', to), 0.05).Tok(), g.byteLadder(quota).String()}
+		bytes := g.byteLadder(quota)
+		// re-allocation to an existing holder, with amounts around that holder's usage and the sender's free quota
+		if als := vk.Subscription.GetAllocationsForSubscription(ctx, id); len(als) > 1 && g.chance(0.6) {
+			al := als[g.pick(len(als))]
+			if addr, err := sdk.AccAddressFromBech32(al.Address); err == nil && !bytesEq(addr, from) {
+				to = addr
+				used := al.UtilisedBytes.BigInt()
+				free := big.NewInt(0)
+				if fal, ok := vk.Subscription.GetAllocation(ctx, id, from); ok {
+					free = bsub(badd(fal.GrantedBytes.BigInt(), al.GrantedBytes.BigInt()), badd(fal.UtilisedBytes.BigInt(), used))
+				}
+				cands := []*big.Int{used, bsub(used, big.NewInt(1)), badd(used, big.NewInt(1)), big.NewInt(0), free, badd(free, big.NewInt(1)),
+					bsub(free, big.NewInt(1)), al.GrantedBytes.BigInt(), new(big.Int).Rsh(used, 1), badd(used, new(big.Int).Rsh(free, 1))}
+				c := cands[g.pick(len(cands))]
+				if c.Sign() >= 0 {
+					bytes = c
+				}
+			}
+		}
+		return []string{kind, g.maybeHostile(g.ta('a', from), h).Tok(), fmt.Sprint(id), g.maybeHostile(g.ta('a', to), 0.05).Tok(), bytes.String()}
 	case "sess_start":
 		ids := []uint64{}
 		for _, s := range subs {
@@ -873,4 +901,159 @@ func clampAbove(mx []Coin, mn sdk.Coins) []Coin {
 		out = append(out, c)
 	}
 	return out
+}
+
+func bytesEq(a, b []byte) bool { return string(a) == string(b) }
+
+// goalTx looks at the current state and returns the next transaction of a scenario that ordinary
+// random choice reaches rarely: provider with an active plan, linked and leased nodes, a plan
+// subscription whose quota is shared, sessions of the co-holders with reported usage, and then
+// re-allocations around what the holders have already used.  Returns nil when nothing applies.
+func (g *Gen) goalTx() []string {
+	ctx := g.e.ctx
+	vk := g.e.vk
+	np := vk.Node.GetParams(ctx)
+	funded := func(min int64) []Actor {
+		out := []Actor{}
+		for _, a := range g.actors {
+			if g.e.bk.GetBalance(ctx, a.Bytes, denomName(1)).Amount.GT(sdk.NewInt(min)) {
+				out = append(out, a)
+			}
+		}
+		return out
+	}
+	provs := vk.Provider.GetProviders(ctx)
+	if len(provs) == 0 {
+		fa := funded(1000)
+		if len(fa) == 0 {
+			return nil
+		}
+		return []string{"prov_register", g.ta('a', fa[g.pick(len(fa))].Bytes).Tok(), strTok("goal"), strTok(""), strTok(""), strTok(""), "0"}
+	}
+	active := []sdk.AccAddress{}
+	nodes := vk.Node.GetNodes(ctx)
+	for _, n := range nodes {
+		if n.Status == hubtypes.StatusActive {
+			active = append(active, n.GetAddress().Bytes())
+		}
+	}
+	if len(nodes) < 2 {
+		fa := funded(1000)
+		if len(fa) == 0 {
+			return nil
+		}
+		gbp := fitBounds([]Coin{{1, big.NewInt(int64(1000 + g.pick(5000)))}}, np.MaxGigabytePrices, np.MinGigabytePrices)
+		hrp := fitBounds([]Coin{{1, big.NewInt(int64(5 + g.pick(50)))}}, np.MaxHourlyPrices, np.MinHourlyPrices)
+		return []string{"node_register", g.ta('a', fa[g.pick(len(fa))].Bytes).Tok(), coinsTok(gbp, false), coinsTok(hrp, false), strTok("https://n.example"), "0"}
+	}
+	if len(active) < 2 {
+		for _, n := range nodes {
+			if n.Status != hubtypes.StatusActive {
+				return []string{"node_update_status", g.ta('n', n.GetAddress().Bytes()).Tok(), "1"}
+			}
+		}
+	}
+	plans := vk.Plan.GetPlans(ctx)
+	if len(plans) == 0 {
+		return []string{"plan_create", g.ta('p', provs[0].GetAddress().Bytes()).Tok(), bmul(hr, int64(2+g.pick(48))).String(), fmt.Sprint(1 + g.pick(3)), "[1:" + fmt.Sprint(5+g.pick(500)) + "]"}
+	}
+	pl := plans[g.pick(len(plans))]
+	pa := pl.GetProviderAddress()
+	if pl.Status != hubtypes.StatusActive {
+		return []string{"plan_update_status", g.ta('p', pa.Bytes()).Tok(), fmt.Sprint(pl.ID), "1"}
+	}
+	// a linked, active node leased by the plan's provider
+	var served sdk.AccAddress
+	linked := vk.Node.GetNodesForPlan(ctx, pl.ID)
+	for _, n := range linked {
+		if n.Status != hubtypes.StatusActive {
+			continue
+		}
+		if _, ok := vk.Subscription.GetLatestPayoutForAccountByNode(ctx, pa.Bytes(), n.GetAddress()); ok {
+			served = n.GetAddress().Bytes()
+		}
+	}
+	if served == nil {
+		if len(active) == 0 {
+			return nil
+		}
+		na := active[g.pick(len(active))]
+		isLinked := false
+		for _, n := range linked {
+			if string(n.GetAddress().Bytes()) == string(na) {
+				isLinked = true
+			}
+		}
+		if !isLinked {
+			return []string{"plan_link", g.ta('p', pa.Bytes()).Tok(), fmt.Sprint(pl.ID), g.ta('n', na).Tok()}
+		}
+		hours := np.MinSubscriptionHours + int64(g.pick(3))
+		return []string{"node_subscribe", g.ta('a', pa.Bytes()).Tok(), g.ta('n', na).Tok(), "0", fmt.Sprint(hours), "1"}
+	}
+	// an active subscription to this plan
+	var psub *subscriptiontypes.PlanSubscription
+	for _, sb := range vk.Subscription.GetSubscriptions(ctx) {
+		if x, ok := sb.(*subscriptiontypes.PlanSubscription); ok && x.PlanID == pl.ID && x.Status == hubtypes.StatusActive {
+			psub = x
+		}
+	}
+	if psub == nil {
+		fa := funded(10000)
+		if len(fa) == 0 {
+			return nil
+		}
+		return []string{"plan_subscribe", g.ta('a', fa[g.pick(len(fa))].Bytes).Tok(), fmt.Sprint(pl.ID), "1"}
+	}
+	owner := psub.GetAddress()
+	als := vk.Subscription.GetAllocationsForSubscription(ctx, psub.ID)
+	if len(als) < 3 {
+		to := g.actors[g.pick(len(g.actors))].Bytes
+		quota := bmul(gb, pl.Gigabytes)
+		return []string{"sub_allocate", g.ta('a', owner.Bytes()).Tok(), fmt.Sprint(psub.ID), g.ta('a', to).Tok(), new(big.Int).Div(quota, big.NewInt(int64(2+g.pick(4)))).String()}
+	}
+	// a co-holder that has consumed quota: move quota around what it has used
+	for _, k := range g.r.Perm(len(als)) {
+		al := als[k]
+		ad, err := sdk.AccAddressFromBech32(al.Address)
+		if err != nil || string(ad.Bytes()) == string(owner.Bytes()) || !al.UtilisedBytes.IsPositive() || !g.chance(0.5) {
+			continue
+		}
+		used := al.UtilisedBytes.BigInt()
+		c := g.oneOf(bsub(used, big.NewInt(1)), new(big.Int).Rsh(used, 1), used, badd(used, big.NewInt(1)), big.NewInt(0), al.GrantedBytes.BigInt())
+		return []string{"sub_allocate", g.ta('a', owner.Bytes()).Tok(), fmt.Sprint(psub.ID), g.ta('a', ad).Tok(), c.String()}
+	}
+	// co-holders: start, report, end
+	for _, k := range g.r.Perm(len(als)) {
+		al := als[k]
+		ad, err := sdk.AccAddressFromBech32(al.Address)
+		if err != nil {
+			continue
+		}
+		ss, found := vk.Session.GetLatestSessionForAllocation(ctx, psub.ID, ad)
+		switch {
+		case (!found || ss.Status != hubtypes.StatusActive) && al.UtilisedBytes.LT(al.GrantedBytes) && g.chance(0.7):
+			return []string{"sess_start", g.ta('a', ad).Tok(), fmt.Sprint(psub.ID), g.ta('n', served).Tok()}
+		case found && ss.Status == hubtypes.StatusActive && ss.Bandwidth.Sum().IsZero():
+			free := bsub(al.GrantedBytes.BigInt(), al.UtilisedBytes.BigInt())
+			up := g.oneOf(new(big.Int).Rsh(free, 1), new(big.Int).Rsh(free, 2), free, badd(free, big.NewInt(1)), big.NewInt(1), big.NewInt(1000003))
+			sig := "nil"
+			dur := int64(g.pick(5000))
+			proof := sessiontypes.Proof{ID: ss.ID, Bandwidth: hubtypes.NewBandwidth(intOf(up), intOf(big.NewInt(0))), Duration: time.Duration(dur)}
+			bz, _ := proof.Marshal()
+			for _, ac := range g.actors {
+				if ac.Priv != nil && string(ac.Bytes) == string(ad.Bytes()) {
+					sb, _ := ac.Priv.Sign(bz)
+					sig = hex.EncodeToString(sb)
+				}
+			}
+			ok := "0"
+			if sig != "nil" {
+				ok = "1"
+			}
+			return []string{"sess_update", g.ta('n', ss.GetNodeAddress().Bytes()).Tok(), fmt.Sprint(ss.ID), up.String(), "0", fmt.Sprint(dur), sig, ok}
+		case found && ss.Status == hubtypes.StatusActive && g.chance(0.6):
+			return []string{"sess_end", g.ta('a', ad).Tok(), fmt.Sprint(ss.ID), fmt.Sprint(g.pick(11))}
+		}
+	}
+	return nil
 }
